@@ -114,6 +114,10 @@ MCCompoundQueries ==
       [] Fam = "S" -> {[d |-> d, ct |-> "t1", n |-> "m1", rr |-> b] : d \in {"A", "B"}, b \in BOOLEAN}
       [] OTHER -> {}
 
+\* replayable behaviours of family S: one operation at a time (the driver is sequential)
+Sequential == /\ rs.pc = "run" => rs' # rs
+              /\ (\E p \in Procs : ops[p].pc = "checked") => ops' # ops
+
 \* ------------------------------------------------------------------ printers
 DocsJ(V) == [d \in DIDs |-> DocJ(V[d])]
 Quiet == rs.pc # "run" /\ \A p \in Procs : ops[p].pc # "checked"
